@@ -146,6 +146,19 @@ def handleIo (op : String) (a : List String) (impl : String) : Option Verdict :=
   | "io.epipe", [cmd, _args, _sh, _bs] =>
     -- the very first write fails (closed pipe): `Wr` with `failAt = some 0`; the failure must surface as a non-zero exit status
     if impl.startsWith "ERR|" && !(impl.startsWith "ERR|0") then some (.ok s!"epipe-{cmd}-error") else some (.bad "ERR|<non-zero> (the write failure must surface)")
+  | "io.fsize", [fmt, pr, sh, bs, lim] => do
+    -- stdout accepts `lim` bytes and then fails: `Wr` with `failAt = some lim` (C18.write_failure_surfaces_*): the run succeeds with the
+    -- complete output when it fits, and ends with a non-zero status otherwise
+    let p ← pr.toNat?; let shape ← parseNats sh; let bits ← parsePatterns bs; let l ← lim.toNat?
+    if impl == "NO-PYTHON" then pure (.ok "fsize-unavailable") else
+    let fileE := if fmt == "npy" then writeNpy shape bits else .ok (asciiBytes (writeText shape bits p))
+    match fileE with
+    | .error _ => pure (.bad "model: cannot write")
+    | .ok file =>
+      if file.length ≤ l then pure (cmpStr impl s!"OK|0|{showHexBytes file}" s!"fsize-{fmt}-fits")
+      else if impl.startsWith "ERR|" && !(impl.startsWith "ERR|0|") then
+        pure (.ok s!"fsize-{fmt}-{if l < 128 then "cut-early" else if l + 24 < file.length then "cut-middle" else "cut-tail"}")
+      else pure (.bad "ERR|<non-zero>|… (the output does not fit: the write failure must surface)")
   | "io.overwrite", [fmt, pr, _sh1, _bs1, sh2, bs2] => do
     let p ← pr.toNat?; let shape ← parseNats sh2; let bits ← parsePatterns bs2
     let fileE := if fmt == "npy" then writeNpy shape bits else .ok (asciiBytes (writeText shape bits p))
